@@ -42,6 +42,17 @@ pub(crate) fn light_state() -> RunState {
     }
 }
 
+/// A run environment around the given machine and debugger.  Built field by field over a zeroed value rather than
+/// with a struct literal, so that the harnesses keep compiling if a change adds a field to RunEnvironment.
+pub(crate) fn env_with(state: RunState, debugger: Option<Debugger>) -> RunEnvironment {
+    let mut e: RunEnvironment = unsafe { core::mem::MaybeUninit::zeroed().assume_init() };
+    unsafe {
+        core::ptr::write(&mut e.state, state);
+        core::ptr::write(&mut e.debugger, debugger);
+    }
+    e
+}
+
 pub(crate) fn snap(s: &RunState) -> Snap {
     Snap { r: s.reg, pc: s.pc, cc: s.flag as u8 }
 }
@@ -269,7 +280,7 @@ fn c03_loop_inbounds_or_halt() {
     unsafe {
         LOOP_PRE_PC = s.pc;
     }
-    let mut env = RunEnvironment { state: s, debugger: None };
+    let mut env = env_with(s, None);
     env.run();
     // only reachable when nothing was fetched: must be the 0xFFFF stop, machine untouched
     assert!(pre.pc == HALT_ADDRESS, "run() returned although PC is inside user space");
@@ -290,7 +301,7 @@ fn c03_loop_out_of_bounds() {
     unsafe {
         LOOP_PRE_PC = s.pc;
     }
-    let mut env = RunEnvironment { state: s, debugger: None };
+    let mut env = env_with(s, None);
     env.run();
     assert!(false, "run() went on although PC left user space");
 }
@@ -697,7 +708,7 @@ macro_rules! run_with_debugger {
                 NA_CALLS = 0;
                 LOOP_PRE_PC = s.pc;
             }
-            let mut env = RunEnvironment { state: s, debugger: Some(d) };
+            let mut env = env_with(s, Some(d));
             env.run();
             // run() returned: either `exit` (ExitProgram) or detached + normal stop at 0xFFFF
             assert_unchanged(&env.state, &pre, probe, pre_probe);
